@@ -130,8 +130,10 @@ def gen_recipe(rng):
         kinds = ["ref"] * 5 + ["objref", "nested"]
         if backward and not tb["once"]:
             kinds += ["randref"] * 2
-        if ta["once"] and not backward and a != b:
-            kinds = ["objref", "nested"]     # a forward reference in a just_once row cannot be saved (finding K2)
+        if ta["once"]:
+            # a just_once row holding anything but a plain row (forward reference slot, literal or random
+            # reference) cannot be written to a continuation file (finding K2 of C04/C05): not this property
+            kinds = ["ref", "nested"] if (backward or a == b) else ["nested"]
         k = rng.choice(kinds)
         if a == b and k in ("nested", "randref"):
             k = "ref"
@@ -155,7 +157,7 @@ def gen_recipe(rng):
     # extra reference flavours
     for t in order:
         tp = tpls[t]
-        if rng.random() < 0.1:
+        if rng.random() < 0.1 and not tp["once"]:
             tp["fields"].append(["lz", ["objref", rng.choice(["Zed", HIDDEN_TABLE, "PersonContact", "Contact"]), 5]])
             feats.add("unloaded_target")
         earlier = [u for u in order if pos[u] < pos[t] and (tpls[u]["count"] is None or tpls[u]["count"] > 0)]
@@ -167,7 +169,7 @@ def gen_recipe(rng):
         if t == "Account" and rng.random() < 0.7:
             if "PersonContact" in names and pos["PersonContact"] < pos[t] and rng.random() < 0.6:
                 tp["fields"].append(["PersonContactId", ["ref", "PersonContact"]])
-            elif rng.random() < 0.5:
+            elif rng.random() < 0.5 and not tp["once"]:
                 tp["fields"].append(["PersonContactId", ["objref", "PersonContact", 1]])
             else:
                 tp["fields"].append(["PersonContactId", ["lit", "x"]])
@@ -793,9 +795,9 @@ def oracle(case, obs):
     if kind == "recipe":
         fresh2, run1, run2 = obs["fresh2"], obs["run1"], obs.get("run2")
         for label, r in (("fresh2", fresh2), ("run1", run1), ("run2", run2)):
-            if r is not None and "err" in r and r["err"] != "DGE":
-                where = "mapping generation" if r.get("in_mapping") else "run"
-                return f"internal-error[{label}]: {where} raised {r['err']}: {r.get('msg', '')[:120]}"
+            # a failure of the run itself (before any mapping is generated) is not this property's subject
+            if r is not None and "err" in r and r["err"] != "DGE" and r.get("in_mapping"):
+                return f"internal-error[{label}]: mapping generation raised {r['err']}: {r.get('msg', '')[:120]}"
         if "mapping" in fresh2:
             msg = check_mapping_rules(case["recipe"], fresh2["mapping"], fresh2["refs"], "fresh2")
             if msg:
@@ -811,8 +813,9 @@ def oracle(case, obs):
         if "mapping" in fresh2 and "mapping" in run1:
             if run2 is None or "mapping" not in run2:
                 if run2 is not None and run2.get("err") == "DGE" and not run2.get("in_mapping"):
-                    return None          # the continued run itself failed: C04's business
-                return f"continuation: fresh run wrote a mapping, the continued run did not: {run2 and run2.get('err')}"
+                    return None          # the continued run itself was rejected: C04's business
+                return (f"continuation: fresh run wrote a mapping, the continued run did not: "
+                        f"{run2 and run2.get('err')}: {run2 and run2.get('msg', '')[:100]}")
             if run2["mapping"] != fresh2["mapping"]:
                 a, b = fresh2["mapping"], run2["mapping"]
                 i = next((k for k, (x, y) in enumerate(zip(a, b)) if x != y), min(len(a), len(b)))
@@ -912,4 +915,13 @@ def directed_search(rng, disagreeing):
 
 
 def match_finding(case, obs, msg, findings):
+    """K16a: add_after_statements indexes the steps by sf_object, lookups name tables; a PersonContact step
+    (sf_object Contact) therefore shadows / replaces the Contact step for lookups to table Contact."""
+    if case.get("kind") != "recipe" or not msg.startswith("after["):
+        return None
+    for f in findings:
+        if f["id"] == "K16a":
+            tables = statics(case["recipe"])[0]
+            if "PersonContact" in tables and "Contact" in tables and "-> 'Contact':" in msg:
+                return "K16a"
     return None
